@@ -157,7 +157,7 @@ theorem pipeline_explicit [CommRing α] (D A : M3 α) (b x : V3 α) :
   rw [staged_eq_sequential]
   simp [pipelineStages, applySeq, Stage.bal, Bal.apply, vecMul_mul, add_zero']
 
-/-- exact fits reproduce the colour rows: if the colour stage maps every white-balanced colour swatch exactly onto its
+/-- (a rewrite of its hypothesis through `pipeline_is_composition`; no further content.) exact fits reproduce the colour rows: if the colour stage maps every white-balanced colour swatch exactly onto its
 reference, the corrected colour swatches ARE the references (the grey row is in general not preserved by the
 second stage — white balance is only a pre-conditioner). -/
 theorem pipeline_colour_rows_exact [CommRing α] (wb col : Stage α) (ref : V3 α → V3 α) (rows : List (List (V3 α)))
@@ -238,16 +238,45 @@ theorem residual_zero_iff (B : Bal α) (pairs : List (V3 α × V3 α)) :
     simp only at hq
     simp only [residual, hq, ih (fun p hp => h p (by simp [hp])), V3.sub, V3.dot]; ring
 
-/-- CONTRACT of the optimiser, part 1: any search that returns a point whose objective is not larger than at its start
-never increases the swatch residual — for every start balance and every swatch set. What the check observes about scipy's
-Powell search is exactly the hypothesis `hopt`. -/
-theorem fit_never_increases (opt : (Bal α → α) → Bal α → Bal α) (hopt : ∀ (J : Bal α → α) (x0 : Bal α), J (opt J x0) ≤ J x0)
-    (start : Bal α) (pairs : List (V3 α × V3 α)) :
-    residual (opt (fun B => residual B pairs) start) pairs ≤ residual start pairs :=
-  hopt (fun B => residual B pairs) start
+/-- ε-BRIDGE: objective within tolerance ⇒ every destination within tolerance. If the least-squares objective of a balance is
+at most ε, the squared distance of every balanced source swatch to its destination is at most ε (each term of a sum of
+non-negative terms is bounded by the sum). This connects what a float optimiser actually delivers (objective ~1e-10, never 0)
+to the statement "reproduces the destinations within tolerance": max-norm error ≤ √ε. -/
+theorem residual_le_bound (B : Bal α) (pairs : List (V3 α × V3 α)) (ε : α) (h : residual B pairs ≤ ε) :
+    ∀ p ∈ pairs, V3.dot (V3.sub (B.apply p.1) p.2) (V3.sub (B.apply p.1) p.2) ≤ ε := by
+  induction pairs generalizing ε with
+  | nil => intro p hp; simp at hp
+  | cons q rest ih =>
+    obtain ⟨s, d⟩ := q
+    simp only [residual] at h
+    have hr := residual_nonneg B rest
+    have hd : 0 ≤ V3.dot (V3.sub (B.apply s) d) (V3.sub (B.apply s) d) := by
+      simp only [V3.dot]
+      have h1 := mul_self_nonneg (V3.sub (B.apply s) d).x
+      have h2 := mul_self_nonneg (V3.sub (B.apply s) d).y
+      have h3 := mul_self_nonneg (V3.sub (B.apply s) d).z
+      linarith
+    intro p hp
+    rcases List.mem_cons.mp hp with rfl | hp'
+    · simp only; linarith
+    · exact ih (ε - V3.dot (V3.sub (B.apply s) d) (V3.sub (B.apply s) d)) (by linarith) p hp' |>.trans (by linarith)
 
-/-- CONTRACT, part 2: on an exactly solvable fit (destinations = `truth` applied to the sources) ANY balance whose
-objective is not larger than the truth's reproduces the destinations exactly. -/
+/-- … in particular each coordinate: |component error|² ≤ ε. -/
+theorem residual_le_bound_component (B : Bal α) (pairs : List (V3 α × V3 α)) (ε : α) (h : residual B pairs ≤ ε) :
+    ∀ p ∈ pairs, (V3.sub (B.apply p.1) p.2).x * (V3.sub (B.apply p.1) p.2).x ≤ ε ∧
+      (V3.sub (B.apply p.1) p.2).y * (V3.sub (B.apply p.1) p.2).y ≤ ε ∧
+      (V3.sub (B.apply p.1) p.2).z * (V3.sub (B.apply p.1) p.2).z ≤ ε := by
+  intro p hp
+  have hb := residual_le_bound B pairs ε h p hp
+  simp only [V3.dot] at hb
+  have h1 := mul_self_nonneg (V3.sub (B.apply p.1) p.2).x
+  have h2 := mul_self_nonneg (V3.sub (B.apply p.1) p.2).y
+  have h3 := mul_self_nonneg (V3.sub (B.apply p.1) p.2).z
+  exact ⟨by linarith, by linarith, by linarith⟩
+
+/-- (idealised limit of `residual_le_bound`, ε = 0: no float optimiser output satisfies the hypothesis exactly.) on an exactly
+solvable fit (destinations = `truth` applied to the sources) ANY balance whose objective is not larger than the truth's reproduces
+the destinations exactly. -/
 theorem exact_fit_reproduces (truth B : Bal α) (src : List (V3 α))
     (hB : residual B (src.map fun s => (s, truth.apply s)) ≤ residual truth (src.map fun s => (s, truth.apply s))) :
     ∀ s ∈ src, B.apply s = truth.apply s := by
@@ -266,14 +295,16 @@ theorem clip01_range (x : Rat) : 0 ≤ clip01 x ∧ clip01 x ≤ 1 ∧ (0 ≤ x 
 
 /-! ## Round 4: dtype path of `ColorCorrection.correct_array` (G1 table, re-tabulated from the running code) -/
 
-/-- every accepted input gives a float32 result: inactive corrections for every tabulated dtype, active ones (both
+/-- (`decide` over a table READ from the implementation; the dtype path is not a clause of C12 - an observation kept as a regression
+obligation.) every accepted input gives a float32 result: inactive corrections for every tabulated dtype, active ones (both
 balancing branches) for uint8, uint16, float32, float64. -/
 theorem color_dtype_float32 :
     (∀ dt ∈ Gen.CDT.all, ∀ colour ∈ [true, false], Gen.colorCorrectionDtype dt false colour = .ok .f32) ∧
     (∀ dt ∈ [Gen.CDT.u8, .u16, .f32, .f64], ∀ colour ∈ [true, false], Gen.colorCorrectionDtype dt true colour = .ok .f32) := by
   decide
 
-/-- every other tabulated dtype is rejected by an active correction with a ValueError (never converted silently). -/
+/-- (same status as `color_dtype_float32`.) every other tabulated dtype is rejected by an active correction with a ValueError
+(never converted silently). -/
 theorem color_dtype_rejects :
     ∀ dt ∈ [Gen.CDT.i16, .i64, .b], ∀ colour ∈ [true, false], Gen.colorCorrectionDtype dt true colour = .error .value := by
   decide
